@@ -28,8 +28,8 @@ def run(tier, only=None):
                                       'layout': 'maximum-size object + 8 guard bytes'}))
         top = 64 if tier == 'quick' else 128
         lens = list(range(0, top + 1))
-        if tier == 'thorough':
-            lens += [W.ACF_MAX_BYTES - H - k for k in range(0, 5)] + [255, 256, 257, 1021, 1022, 1023, 1024, 1025]
+        lens += [W.ACF_MAX_BYTES - H - k for k in range(0, 5)] + [236, 237, 238, 239, 240, 241, 247, 248, 249, 253,
+                                                                   254, 255, 256, 257, 1021, 1022, 1023, 1024, 1025]
         for ln in sorted(set(lens)):
             pad = (4 - ln % 4) % 4
             jobs.append(Job('c06.%s.E.len%d' % (fmt, ln), C.c06_extent(fmt, ln), SRC[fmt],
@@ -40,7 +40,7 @@ def run(tier, only=None):
     chk.assumptions = STD_ASSUME + [
         'payload_length beyond what the 9-bit length field can express (message > 2044 bytes) is outside the claim',
         'NULL arguments are outside this property (builders document non-NULL)',
-        'exact-extent (E) queries: quick every length 0..64; thorough 0..128 plus boundary lengths up to the ACF maximum']
+        'exact-extent (E) queries: quick every length 0..64, thorough 0..128, both plus type-boundary lengths (message length 255/256 bytes, payload 253..257, 1021..1025, and the ACF maximum)']
     return chk.finish(
         rule='(F) one query per builder with SYMBOLIC payload length on a maximum-size object (whole object compared '
              'with the reference message); (E) one query per concrete length with message and payload objects of '
